@@ -1,7 +1,8 @@
 import MosnVerif.Model.ConfigCodec
+import MosnVerif.Lemmas.GoDuration
 /-! Lemmas behind C19: the generic codec round trip. -/
 namespace MosnVerif.Model.ConfigCodec
-open MosnVerif.Model
+open MosnVerif.Model MosnVerif.Model.GoDuration
 
 /-! ### member lookup -/
 
@@ -79,6 +80,9 @@ theorem rt : (sh : Shape) → keysOK sh = true → (v : CVal) → wt sh v = true
   | .bool, _, v, hw => by cases v <;> simp [wt] at hw; simp [encode, decode, norm]
   | .hole, _, v, hw => by cases v <;> simp [wt] at hw; simp [encode, decode, norm]
   | .hmap, _, v, hw => by cases v <;> simp [wt] at hw; simp [encode, decode, norm, hw]
+  | .dur, _, v, hw => by
+    cases v <;> simp [wt] at hw
+    simp [encode, decode, norm, durU, parseDur_fmtDur _ hw.1 hw.2]
   | .struct fs, hk, v, hw => by
     cases v <;> simp [wt] at hw
     rename_i vs
@@ -204,6 +208,7 @@ theorem en : (sh : Shape) → (v : CVal) → wt sh v = true → encode sh (norm 
   | .bool, v, hw => by cases v <;> simp [wt] at hw; simp [norm]
   | .hole, v, hw => by cases v <;> simp [wt] at hw; simp [norm]
   | .hmap, v, hw => by cases v <;> simp [wt] at hw; simp [norm]
+  | .dur, v, hw => by cases v <;> simp [wt] at hw; simp [norm]
   | .struct fs, v, hw => by
     cases v <;> simp [wt] at hw
     simp [norm, encode, enF fs _ hw]
@@ -247,6 +252,7 @@ theorem wt_zero : (sh : Shape) → keysOK sh = true → wt sh (zero sh) = true
   | .bool, _ => by simp [zero, wt]
   | .hole, _ => by simp [zero, wt]
   | .hmap, _ => by simp [zero, wt, isObjOrNull]
+  | .dur, _ => by simp [zero, wt, two63]
   | .struct fs, h => by simp only [keysOK] at h; simp [zero, wt, wtF_zero fs h]
   | .slice e, _ => by simp [zero, wt, wtL]
   | .map e, _ => by simp [zero, wt, wtM]
@@ -297,6 +303,15 @@ theorem dw : (sh : Shape) → keysOK sh = true → (j : Json) → (v : CVal) →
     split at h
     · rename_i ho; simp at h; subst h; simp [wt, ho]
     · simp at h
+  | .dur, _, j, v, h => by
+    simp only [decode] at h
+    cases hd : durU j with
+    | none => simp [hd] at h
+    | some d =>
+      simp [hd] at h; subst h
+      have hr : -(two63 : Int) ≤ d ∧ d < (two63 : Int) := by
+        cases j <;> simp [durU, parseDur] at hd <;> exact parseChars_range _ d hd
+      simp [wt, hr.1, hr.2]
   | .struct fs, hk, j, v, h => by
     simp only [keysOK] at hk
     cases j <;> simp [decode] at h
